@@ -937,7 +937,11 @@ fn group_unhinted(font: &FontRef, spec: &GroupSpec, rng: &mut Rng, st: &mut Stat
 fn group_memory(font: &FontRef, spec: &GroupSpec, rng: &mut Rng, st: &mut Stats) {
     let i = info(font);
     let oc = font.outline_glyphs();
-    let gids = glyph_ids(i.n_glyphs, 0, rng);
+    let mut gids = glyph_ids(i.n_glyphs, 0, rng);
+    // "memory:k": every third glyph id only (fonts whose glyph programs are expensive: three smaller cases)
+    if let Some(k) = spec.group.split(':').nth(1).and_then(|s| s.parse::<usize>().ok()) {
+        gids = gids.into_iter().enumerate().filter(|(j, _)| j % 3 == k % 3).map(|(_, g)| g).collect();
+    }
     let cvs = coord_vectors(i.axis_count, 0, rng, 2);
     let aligns: &[usize] = if spec.level >= 1 { &[0, 1, 2, 3, 4, 5, 6, 7] } else { &[0, 1, 4, 7] };
     // one interpreter instance to exercise the hinted carving too
